@@ -48,7 +48,7 @@ func TestCheck(t *testing.T) {
 			col.Class(fmt.Sprintf("%s/fail-kind=%d", c.Cmd, c.FailKind))
 		}
 		if out.Executed > 0 || (c.Dev != "empty" && c.Dev != "memory") {
-			col.NonTrivial(fmt.Sprintf("%s|%s|%v|%d|%d|%d|%d|%d", c.Cmd, c.Dev, c.Files, c.FailAt, c.Style, c.Ckpt, c.Latest, c.FailKind))
+			col.NonTrivial(fmt.Sprintf("%s|%s|%v|%d|%d|%d|%d|%d", c.Cmd, c.Dev, c.Files, c.FailAt, c.Style, c.Ckpt, c.Latest, c.FailKind)+fmt.Sprint(c.ViaEnv))
 		}
 		col.Sample(c.Cmd+"/"+c.Dev, c)
 		return err
@@ -77,7 +77,7 @@ func TestCheck(t *testing.T) {
 						if !col.Mine(i) {
 							continue
 						}
-						if !ev.Each(col, "enumerated", Case{Cmd: cmd, Dev: dev, Files: sh, FailAt: fail, Style: style}, check, known) {
+						if !ev.Each(col, "enumerated", Case{Cmd: cmd, Dev: dev, Files: sh, FailAt: fail, Style: style, ViaEnv: i%4 == 0}, check, known) {
 							return
 						}
 						// other ways to fail: a state that cannot be read back, a file that opens its own transaction
@@ -134,6 +134,7 @@ func TestCheck(t *testing.T) {
 		c.FailAt = rapid.IntRange(-1, total-1).Draw(t, "fail")
 		c.Style = rapid.IntRange(0, 2).Draw(t, "style")
 		c.FailKind = rapid.SampledFrom([]int{0, 0, 1, 2}).Draw(t, "failkind")
+		c.ViaEnv = rapid.IntRange(0, 2).Draw(t, "viaenv") == 0
 		if c.Dev == "libsql-lookalike" && c.FailKind == 2 {
 			c.FailKind = 0 // the two recorded findings are kept apart: this dev database is not refused, so the replay runs on it
 		}
